@@ -828,7 +828,7 @@ class CallMixin:
     def iter_seq(self, v: V) -> VList:
         d = self.deref(v)
         if isinstance(d, VOpt):
-            if self.path.branch(d.isnone):
+            if not self.spec_mode and self.path.branch(d.isnone):
                 self.raise_builtin("TypeError")
             d = self.deref(d.val)
         if isinstance(d, VList):
